@@ -57,7 +57,8 @@ def _op_tla(op):
     if op[0] == 'ret':
         return ['ret', op[1] or 0]
     if op[0] in ('call', 'wait'):
-        return [op[0], _spec_tla(op[1])]
+        tmo = op[2] if len(op) > 2 and op[2] is not None else -1
+        return [op[0], _spec_tla(op[1]), tmo]
     if op[0] == 'yield':
         return ['yield', op[1] or 0]
     if op[0] in ('exit', 'stopmgr', 'stop2'):
